@@ -42,7 +42,7 @@ class ReplayDivergence(RuntimeError):
 
 
 class Seam:
-    def __init__(self, script=(), seed=0, float_patterns=True, perm_all_upto=4, label_sites=False, tie_rows=False):
+    def __init__(self, script=(), seed=0, float_patterns=True, perm_all_upto=4, label_sites=False, tie_rows=False, tile_rows=False):
         _save_originals()
         self.script = list(script)
         self.seed = seed
@@ -54,6 +54,9 @@ class Seam:
         # tie_rows: the rows of one multinomial call are copies of the same state (used where the library does not
         # support batch size 1): ONE choice point per call, every row takes the answer of the same rank
         self.tie_rows = tie_rows
+        # tile_rows: uniform draws of shape [B, ...] give every row the same values (row-keyed answer: a row's draw
+        # does not depend on its position or on the batch size) - used for policies that draw random numbers at inference
+        self.tile_rows = tile_rows
 
     # ---- choice bookkeeping -------------------------------------------------------------------
     def choose(self, kind, n_alt):
@@ -76,6 +79,15 @@ class Seam:
     def _unit_pattern(self, shape, dtype, device):
         """values in [0,1) according to the chosen pattern"""
         n_alt = 6 if self.float_patterns else 1
+        if self.tile_rows and len(shape) >= 2:
+            full = tuple(shape)
+            shape = tuple(shape[1:])
+            one = self._unit_pattern_inner(shape, dtype, None, n_alt)
+            out = one.unsqueeze(0).expand(full).clone()
+            return out.to(device) if device is not None else out
+        return self._unit_pattern_inner(shape, dtype, device, n_alt)
+
+    def _unit_pattern_inner(self, shape, dtype, device, n_alt):
         c = self.choose("rand", n_alt)
         numel = int(math.prod(shape)) if len(shape) else 1
         dtype = dtype if dtype in (torch.float32, torch.float64, torch.float16, torch.bfloat16) else torch.float32
